@@ -397,6 +397,11 @@ func (r *importSet) TypeName(pk WorkingPackage, tpe types.Type) string {
 		}
 	case *types.Signature:
 		argsstr := iterate(realtp.Params().Len(), realtp.Params().At, func(idx int, v *types.Var) string {
+			if realtp.Variadic() && idx == realtp.Params().Len()-1 {
+				if s, ok := v.Type().(*types.Slice); ok {
+					return v.Name() + " ..." + r.TypeName(pk, s.Elem())
+				}
+			}
 			return v.Name() + " " + r.TypeName(pk, v.Type())
 		})
 
